@@ -52,6 +52,10 @@ ALLOWED_AXIOMS = {
     "proof_irrelevance",
     "ProofIrrelevance.proof_irrelevance",
     "propositional_extensionality",
+    # the standard library's real-number axioms (Flocq theorems about float64 mention R; C06 only)
+    "ClassicalDedekindReals.sig_forall_dec",
+    "ClassicalDedekindReals.sig_not_dec",
+    "FunctionalExtensionality.functional_extensionality_dep",
 }
 
 
